@@ -51,7 +51,7 @@ func hasListInList(v any, inList bool) bool {
 
 func c02Opts() genOpts {
 	o := defaultOpts()
-	o.keys = []string{"a", "b", "c", "k1", "x-y", "z_9", "0", "12", "A", "cpu%", "-", "_", "café", "ключ"} // "-" and "_" alone are names like any other
+	o.keys = []string{"a", "b", "c", "k1", "x-y", "z_9", "0", "12", "A", "cpu%", "-", "_", "café", "ключ", "007", "00", "010"} // (all-digit names that are no canonical indexes are names) // "-" and "_" alone are names like any other
 	return o
 }
 
